@@ -117,6 +117,7 @@ def labelBody (src : Bytes) : Nat → Rd → Nat → Int → Option (Rd × Int)
     if c == 0x5C then
       let innerEnd : Int := r.pos + 1
       let chars := chars + 1
+      if chars ≥ maxChars then none else
       let (ok, r) := r.next src
       if !ok then none else
       let (c2, r) := r.current src
